@@ -299,12 +299,58 @@ class Gen:
             out.append(ind + '{"%s"}: ins_%d(%s);' % (m, o, ', '.join(args)))
         return out
 
+    def jump_shape(self):
+        """goto idioms at the top nesting level: forward skip, backward loop, skip over a loop,
+        do-while, if/else by hand, overlapping ranges, jump into a loop; bodies may carry time labels
+        and interrupt labels"""
+        r = self.r
+        p = self.p
+
+        def lab():
+            self.nlabel += 1
+            return 'lab%d' % self.nlabel
+
+        def body(n=None):
+            out = []
+            for _ in range(r.randint(0, 2) if n is None else n):
+                k = r.random()
+                if p.interrupts and k < 0.25:
+                    out.append('    interrupt[%d]:' % r.choice([1, 2, 5]))
+                elif k < 0.45:
+                    out.append('    ' + self.time_label())
+                out.append('    ' + self.ins(False))
+            return out
+
+        def cgoto(l):
+            if p.blocks and r.random() < 0.8:
+                return '    if (%s) goto %s;' % (self.cond(), l)
+            return '    goto %s;' % l
+
+        shape = r.choice(['skip', 'loop', 'skip-over-loop', 'dowhile', 'ifelse', 'overlap', 'into-loop', 'skip-over-loop'])
+        a, b, c = lab(), lab(), lab()
+        if shape == 'skip':
+            return [cgoto(a)] + body() + ['    %s:' % a]
+        if shape == 'loop':
+            return ['    %s:' % a] + body(r.randint(1, 2)) + ['    goto %s;' % a]
+        if shape == 'skip-over-loop':
+            return [cgoto(a), '    %s:' % b] + body(r.randint(1, 2)) + ['    goto %s;' % b, '    %s:' % a] + body()
+        if shape == 'dowhile':
+            return ['    %s:' % a] + body(r.randint(1, 2)) + [cgoto(a)]
+        if shape == 'ifelse':
+            return [cgoto(a)] + body() + ['    goto %s;' % b, '    %s:' % a] + body() + ['    %s:' % b]
+        if shape == 'overlap':
+            return [cgoto(a), '    %s:' % b] + body() + [cgoto(c)] + body() + ['    goto %s;' % b, '    %s:' % a] + body() + ['    %s:' % c]
+        return [cgoto(a), '    %s:' % b] + body(1) + ['    %s:' % a] + body(1) + ['    goto %s @ %d;' % (b, r.choice([0, 10, -1]))]
+
     def script_body(self, nstmts):
         r = self.r
         p = self.p
         lines = []
         for _ in range(nstmts):
-            lines.extend(self.stmt(0))
+            if p.jumps and r.random() < 0.15:
+                lines.extend(self.jump_shape())
+            else:
+                lines.extend(self.stmt(0))
         if p.jumps:
             # labels and gotos at the top nesting level only
             top = [i for i, l in enumerate(lines) if l.startswith('    ') and not l.startswith('     ')]
@@ -336,8 +382,23 @@ class Gen:
         return '\n'.join(lines) + '\n'
 
 
+REGIDS = {
+    'ANM_12': ([10000, 10001, 10002, 10003], [10004, 10005, 10006, 10007]),
+    'ANM_16': ([10000, 10001, 10002, 10003], [10004, 10005, 10006, 10007]),
+    'ECL_06': ([-10001, -10002, -10003, -10004], [-10005, -10006, -10007, -10008]),
+    'ECL_07': ([10000, 10001, 10002, 10003], [10004, 10005, 10006, 10007]),
+    'ECL_08': ([10000, 10001, 10002, 10003], [10016, 10017, 10018, 10019]),
+}
+
+
 def mapfile_for(prof, with_names, rng):
     out = [prof.mapmagic, prof.sig_section]
+    enum_sigs = {}
+    if with_names and prof.fmt in REGIDS and rng.random() < 0.6:
+        # enum-typed arguments: values with names print as names, the others as numbers
+        enum_sigs = {740: 'S(enum="GenKind")', 741: 'S(enum="GenKind")S(enum="GenMode")', 742: 'S(enum="GenMode")f'}
+        for op, sg in enum_sigs.items():
+            out.append('%d %s' % (op, sg))
     for op, sig in prof.sigs.items():
         out.append('%d %s' % (op, sig))
         out.append('%d %s' % (op + 20, sig))
@@ -346,10 +407,23 @@ def mapfile_for(prof, with_names, rng):
         for op in prof.sigs:
             if rng.random() < 0.6:
                 out.append('%d gen%d' % (op, op))
-    return '\n'.join(out) + '\n'
+        if prof.fmt in REGIDS and rng.random() < 0.7:
+            # second names for the registers (the last name given wins when decompiling)
+            ints, floats = REGIDS[prof.fmt]
+            out.append('!gvar_names')
+            for k, r in enumerate(ints):
+                if rng.random() < 0.7:
+                    out.append('%d genI%d' % (r, k))
+            for k, r in enumerate(floats):
+                if rng.random() < 0.7:
+                    out.append('%d genF%d' % (r, k))
+    if enum_sigs:
+        out += ['!enum(name="GenKind")', '0 KindZero', '1 KindOne', '7 KindSeven', '-1 KindMinus',
+                '!enum(name="GenMode")', '0 ModeZero', '2 ModeTwo', '7 ModeSeven']
+    return '\n'.join(out) + '\n', enum_sigs
 
 
-def generate(seed=20260923, per_profile=14):
+def generate(seed=20260923, per_profile=24):
     items = []
     for pname, prof in PROFILES.items():
         for k in range(per_profile):
@@ -375,9 +449,23 @@ def generate(seed=20260923, per_profile=14):
                 full = '#pragma mapfile "map/any.msgm"\n\nmeta {\n    table: {\n%s    }\n}\n\nscript main {\n%s}\n' % (table, main)
                 for nm in names[1:]:
                     full += 'script %s {\n%s}\n' % (nm, g.script_body(rng.choice([1, 3, 6])))
+            mapfile, enum_sigs = mapfile_for(prof, rng.random() < 0.5, rng)
+            if enum_sigs:
+                kinds = ['KindZero', 'KindOne', 'KindSeven', 'KindMinus', '3', '1', 'GenKind.KindOne']
+                modes = ['ModeZero', 'ModeTwo', 'ModeSeven', '1', '2', 'GenMode.ModeSeven']
+                extra = ''
+                for _ in range(rng.randint(1, 4)):
+                    op = rng.choice([740, 741, 742])
+                    if op == 740:
+                        extra += '    ins_740(%s);\n' % rng.choice(kinds)
+                    elif op == 741:
+                        extra += '    ins_741(%s, %s);\n' % (rng.choice(kinds), rng.choice(modes))
+                    else:
+                        extra += '    ins_742(%s, %s);\n' % (rng.choice(modes), g.float_lit())
+                main = extra + main
             items.append({
                 'id': 'gen/%s-%02d' % (pname, k), 'fmt': prof.fmt, 'main_body': main, 'items': extra_items, 'full': full,
-                'mapfile': mapfile_for(prof, rng.random() < 0.5, rng),
+                'mapfile': mapfile,
             })
     return items
 
